@@ -321,8 +321,21 @@ pub fn slice_program(s: &Value, a: &Value, b: &Value, c: &Value, mode: &str, tra
                 format!("f := (s: {}{params}) -> any {{ r := s{br}; return (r, std.len(r)); }}; f({st}{args})", param_type(s, mode))
             }
         }
+        // the operand is a NAME (exactly typed / union-typed), the bounds are literals: what the folder can decide from the
+        // bounds alone must not depend on the operand's static type
+        "fnl" | "fnul" => {
+            let br = brackets(&at, &bt, &ct, trailing_colon);
+            format!("f := (s: {}) -> any {{ r := s{br}; return (r, std.len(r)); }}; f({st})", param_type(s, if mode == "fnul" { "fnu" } else { "fn" }))
+        }
         other => panic!("mode {other}"),
     }
+}
+
+/// All in-range indices of one sequence read in ONE program, in the order given, each twice in a row, through one name:
+/// reading s[i] must not depend on what was read from s before.
+pub fn at_sequence_program(s: &Value, indices: &[String], union_typed: bool) -> String {
+    let reads: Vec<String> = indices.iter().flat_map(|i| [format!("s[{i}]"), format!("s[{i}]")]).collect();
+    format!("f := (s: {}) -> any {{ return [{}]; }}; f({})", param_type(s, if union_typed { "fnu" } else { "fn" }), reads.join(", "), render_value(s))
 }
 
 fn is_min(x: &Value) -> bool {
@@ -477,6 +490,28 @@ fn replay(dir: &str, tier: &str) -> Value {
                     }
                 }
             }
+            // every in-range index of this sequence in one program (ascending, descending and interleaved order)
+            let ok: Vec<(String, Value)> = items(row, "at").iter().enumerate().filter(|(_, w)| k(w) == "ok")
+                .map(|(j, w)| (render_ext(&idx[j]), w["v"].clone())).collect();
+            if !ok.is_empty() {
+                let mut orders: Vec<Vec<usize>> = vec![(0..ok.len()).collect(), (0..ok.len()).rev().collect()];
+                orders.push((0..ok.len()).map(|x| if x % 2 == 0 { x / 2 } else { ok.len() - 1 - x / 2 }).collect());
+                for (oi, order) in orders.iter().enumerate() {
+                    let texts: Vec<String> = order.iter().map(|&x| ok[x].0.clone()).collect();
+                    let program = at_sequence_program(s, &texts, oi == 1);
+                    let r = run_text(&interp, &program);
+                    cx.evals += 1;
+                    cx.at_cases += 1;
+                    let got = outcome_json(&r);
+                    let want_es: Vec<Value> = order.iter().flat_map(|&x| [ok[x].1.clone(), ok[x].1.clone()]).collect();
+                    let same = got["k"] == "ok" && got["v"]["k"] == "array"
+                        && got["v"]["es"].as_array().map(|es| es.len() == want_es.len() && es.iter().zip(&want_es).all(|(a, b)| a == b)).unwrap_or(false);
+                    if !same {
+                        cx.mm.push("at", json!({"mode": "sequence", "s": s, "i": texts, "program": program,
+                            "expected": want_es, "observed": got}));
+                    }
+                }
+            }
         }
         // ---- slicing
         for (ri, row) in slice_rows.iter().enumerate() {
@@ -497,9 +532,10 @@ fn replay(dir: &str, tier: &str) -> Value {
                     cx.distinct.insert(format!("{s}{want_r}"));
                     let parity = (ri + bi + ci) % 2 == 0;
                     let modes: Vec<&str> = if thorough {
-                        vec!["lit", "arrlit", "var", "fn", "fnu", "clo"]
+                        vec!["lit", "arrlit", "var", "fn", "fnu", "clo", "fnl", "fnul"]
                     } else {
-                        vec!["lit", if parity { "fn" } else { "fnu" }, if (ri + bi) % 2 == 0 { "var" } else { "arrlit" }, if (ri + ci) % 3 == 0 { "clo" } else { "lit" }]
+                        vec!["lit", if parity { "fn" } else { "fnu" }, if (ri + bi) % 2 == 0 { "var" } else { "arrlit" }, if (ri + ci) % 3 == 0 { "clo" } else { "lit" },
+                             if (ri + bi + ci) % 3 == 0 { "fnl" } else { "fnul" }]
                     };
                     for mode in modes {
                         let program = slice_program(s, a, b, c, mode, parity);
